@@ -64,7 +64,7 @@ class C19(P.Property):
     assumptions = ["crash model is a clean close/reopen: the property names no other fault for the array",
                    "exception type is prescribed only for out-of-range reads (IndexError) and closed-array use (ValueError); "
                    "a refused write may raise any exception"]
-    probe_names = ["neg_read_after_reopen", "neg_read_last_chunk_unopened", "slice_fail_pos_ge1", "neg_step_slice_fail",
+    probe_names = ["slice_one_shot_values", "neg_read_after_reopen", "neg_read_last_chunk_unopened", "slice_fail_pos_ge1", "neg_step_slice_fail",
                    "len_not_multiple_of_chunk", "chunk_gt_len", "op_while_closed", "reopen", "step0_slice", "from_list", "bystander_array", "interleaved_iteration", "write_during_iteration"]
 
     def setup(self):
@@ -142,6 +142,8 @@ class C19(P.Property):
                     ln = 0
                 k = rng.choice([0, 1, ln, ln + 2, rng.randint(0, n + 2)])
                 st = {"op": "sslice", "s": s, "vals": [rv() for _ in range(k)]}
+                if rng.random() < 0.35:
+                    st["wrap"] = rng.choice(["gen", "iter", "tuple"])  # the values arrive as a one-shot iterable (generator, iterator) or a tuple
                 if op == "sslice_bad":
                     if k and rng.random() < 0.9:
                         st["badpos"] = rng.randrange(k)
@@ -369,7 +371,11 @@ class C19(P.Property):
                             vals[badpos] = mkbad(st["bad"], isz)
                         else:
                             badpos = None
-                    got = outcome(lambda: a.__setitem__(s, 5 if vals is None else vals))
+                    wrap = st.get("wrap") if vals is not None else None
+                    if wrap in ("gen", "iter"):
+                        probe("slice_one_shot_values")
+                    given = 5 if vals is None else (x for x in vals) if wrap == "gen" else iter(vals) if wrap == "iter" else tuple(vals) if wrap == "tuple" else vals
+                    got = outcome(lambda: a.__setitem__(s, given))
                     obs.append((op, got[0]))
                     if idx is None or vals is None:
                         if got[0] != "exc":
